@@ -2,6 +2,7 @@
   Props/C14.lean — PROPERTY C14: static evaluation is a pure, bounded function of the position.  Statements only.
 -/
 import ChessVerif.Model.Eval
+import ChessVerif.Lemmas.EvalEndgame
 namespace Chess.Props
 
 /-- operations on one long-lived evaluator: evaluate a position, or `clear()` (ucinewgame) -/
@@ -100,13 +101,43 @@ theorem C14_cache_transparent (ops : List EvalOp) (inj : PawnKeyInj ops) :
     runScorer {} ops = pureValues ops :=
   runScorer_pure ops inj ops (fun _ h => h) {} (fun s => Or.inl (by simp [PawnCache.get]))
 
-/-- the full boundedness statement (kept visible; explored by the correspondence, not yet proved):
-    every evaluation of a well-formed position is strictly inside the non-mate range and is not VALUE_NONE -/
-def C14_bounded_Statement : Prop :=
-  ∀ p : Position, (∃ T s, p = ofFen T s) → evalPure p ≠ VALUE_NONE ∧ ((evalPure p).natAbs : Int) < VALUE_MATE - Gen.MAX_DEPTH
+/-- the two numeric facts about the constants of the current build on which the bound rests (kernel evaluation over
+    Gen/EvalConsts.lean and Gen/Consts.lean): the worst-case sum of all evaluation terms, and the worst case of every
+    specialised endgame, both stay below the mate range and below VALUE_NONE -/
+theorem C14_constants : totalB < VALUE_MATE - Gen.MAX_DEPTH ∧ egB < VALUE_MATE - Gen.MAX_DEPTH ∧ VALUE_MATE - Gen.MAX_DEPTH ≤ VALUE_NONE := by
+  decide +kernel
 
-/-- proved part of the bound: the specialised endgame values are clamped strictly below the mate range
-    (`min(v, VALUE_MATE - 1)` in KNBK/KQKR/KXK) -/
+/-- C14 (BOUNDED, every position): on every well-formed position (Spec.wf: the quantifier of the property — at most 8 pawns,
+    10 knights/bishops/rooks and 9 queens per side, so "nine queens" is inside) the static evaluation is not VALUE_NONE and
+    lies strictly inside the non-mate range: |eval| < VALUE_MATE − MAX_DEPTH.  General branch: every term is a constant of
+    value.h times a population count (≤ 64), a king distance (≤ 8) or a bounded table entry, summed over at most 8/10/10/10/9
+    pieces per side, then tapered (truncating division keeps the bound).  Endgame branch: each of the 17 specialised
+    evaluators, including the `min(v, VALUE_MATE − 1)` clamps, whose argument is shown to stay below the clamp. -/
+theorem C14_bounded (p : Position) (hwf : Spec.wf (absPos p) = true) :
+    evalPure p ≠ VALUE_NONE ∧ ((evalPure p).natAbs : Int) < VALUE_MATE - Gen.MAX_DEPTH := by
+  obtain ⟨c1, c2, c3⟩ := C14_constants
+  unfold evalPure
+  simp only []
+  by_cases he : endgameScore (BBs.of p) p.board p.side ≠ VALUE_NONE
+  · rw [if_pos he]
+    have := endgame_bound p hwf he
+    exact ⟨he, by omega⟩
+  · rw [if_neg he]
+    have := evalWith_bound p hwf
+    constructor
+    · intro h; omega
+    · omega
+
+/-- the hypothesis is met by real positions: the initial position, and a nine-queens position -/
+def c14Start : Position :=
+  { side := 0, halfmove := 0, ply := 1, castling := 15, ep := 64, hash := {}, history := [],
+    board := [4, 2, 3, 5, 6, 3, 2, 4, 1, 1, 1, 1, 1, 1, 1, 1] ++ List.replicate 32 0 ++ [7, 7, 7, 7, 7, 7, 7, 7, 10, 8, 9, 11, 12, 9, 8, 10] }
+def c14Queens : Position :=
+  { side := 0, halfmove := 0, ply := 1, castling := 0, ep := 64, hash := {}, history := [],
+    board := [0, 0, 0, 0, 0, 0, 0, 6, 5, 5, 5, 0, 0, 0, 0, 0, 5, 5, 5, 0, 0, 0, 0, 0, 5, 5, 5] ++ List.replicate 12 0 ++ [12] ++ List.replicate 24 0 }
+example : Spec.wf (absPos c14Start) = true ∧ Spec.wf (absPos c14Queens) = true := by decide +kernel
+
+/-- the clamp of the specialised endgames by itself (kept from the earlier partial result) -/
 theorem C14_cap_partial (v : Int) : min v (VALUE_MATE - 1) < VALUE_MATE := by
   have : VALUE_MATE = 640000 := by decide
   omega
